@@ -26,6 +26,7 @@ except ImportError:  # replay without crosshair
     NoTracing = ResumedTracing = contextlib.nullcontext  # type: ignore
 
 TWIN = False
+REAL_LRU = False  # True: functools.lru_cache really caches while tracing (CrossHair's default is to bypass every lru_cache)
 REACHED = 0
 FAILS: List[Dict[str, Any]] = []
 NOTES: List[Any] = []
@@ -125,3 +126,66 @@ def _jsonable(x: Any) -> Any:
     if isinstance(x, (list, tuple, set, frozenset)):
         return [_jsonable(v) for v in x]
     return repr(x)
+
+
+def install_real_lru_patch() -> None:
+    """Replace CrossHair's registration for functools._lru_cache_wrapper.__call__ (which skips the cache) by one that, when
+    xs.REAL_LRU is set, calls the real C wrapper untraced on realised arguments; otherwise CrossHair's behaviour is kept."""
+    try:
+        from functools import _lru_cache_wrapper
+
+        import crosshair.core_and_libs  # noqa: F401  (registers CrossHair's library patches)
+        from crosshair import core as _core
+    except ImportError:
+        return
+    reg = _core._PATCH_REGISTRATIONS  # pylint:disable=protected-access
+    key = _lru_cache_wrapper.__call__
+    original = reg.get(key)
+    if original is None or getattr(original, "_vf_patched", False):
+        return
+
+    def call(self, *a, **kw):
+        if not REAL_LRU:
+            return original(self, *a, **kw)
+        a, kw = R(a), R(kw)
+        exc = None
+        res = None
+        with nt():
+            try:
+                res = _lru_cache_wrapper.__call__(self, *a, **kw)
+            except Exception as e:  # pylint:disable=broad-except
+                exc = e
+        if exc is not None:
+            raise exc
+        return res
+
+    call._vf_patched = True  # type: ignore[attr-defined]
+    reg[key] = call
+
+
+def clear_ahbicht_caches() -> None:
+    """cache_clear() on every lru_cached callable reachable from the ahbicht modules (module attributes and closure cells)"""
+    import sys
+
+    with nt():
+        seen = set()
+        for name, mod in list(sys.modules.items()):
+            if not name.startswith("ahbicht") or mod is None:
+                continue
+            for v in list(vars(mod).values()):
+                for cand in [v] + [c.cell_contents for c in (getattr(v, "__closure__", None) or ()) if _cell_ok(c)]:
+                    cc = getattr(cand, "cache_clear", None)
+                    if callable(cc) and id(cand) not in seen:
+                        seen.add(id(cand))
+                        try:
+                            cc()
+                        except Exception:  # pylint:disable=broad-except
+                            pass
+
+
+def _cell_ok(c) -> bool:
+    try:
+        c.cell_contents
+        return True
+    except ValueError:
+        return False
